@@ -208,6 +208,23 @@ theorem C26_operand_param (a b : Nat) (idx : List Char) (ps : List (List Char)) 
   rw [trim_both a b '%' idx (by decide) hl]
   rfl
 
+/-- C26: the value of `%n` is expression parameter n CHARACTER FOR CHARACTER: blanks around the `%n` token in the
+    expression (`a`, `b`) are irrelevant, blanks (or anything else) inside the parameter `p` are kept — `p` is returned
+    unchanged for every list of characters -/
+theorem C26_param_not_trimmed (a b n : Nat) (idx p : List Char) (ps : List (List Char)) (hidx : ∀ c ∈ idx, isWs c = false)
+    (hn : parseUsize idx = some n) (hp : ps[n]? = some p) :
+    operandOf (List.replicate a ' ' ++ ('%' :: idx) ++ List.replicate b ' ') ps = some p := by
+  rw [C26_operand_param a b idx ps hidx, hn]
+  exact hp
+
+/-- seeded change C26_d: `name = %0` with the parameter " RED" selects " RED" and not "RED" (a trimmed parameter would do the opposite) -/
+example :
+    eval { expr := "name =  %0 ".toList, params := [" RED".toList] } [⟨"id".toList, .int 1⟩, ⟨"name".toList, .str " RED".toList⟩] = Eval.pass ∧
+    eval { expr := "name =  %0 ".toList, params := [" RED".toList] } [⟨"id".toList, .int 1⟩, ⟨"name".toList, .str "RED".toList⟩] = Eval.fail ∧
+    eval { expr := "name <= %0".toList, params := ["RED ".toList] } [⟨"id".toList, .int 1⟩, ⟨"name".toList, .str "RED ".toList⟩] = Eval.pass ∧
+    eval { expr := "name <= %0".toList, params := ["RED".toList] } [⟨"id".toList, .int 1⟩, ⟨"name".toList, .str "RED ".toList⟩] = Eval.fail := by
+  decide
+
 /-- `'text'`: the text between the quotes, whatever it is and whatever the parameters are -/
 theorem C26_operand_quoted (a b : Nat) (t : List Char) (ps : List (List Char)) :
     operandOf (List.replicate a ' ' ++ ('\'' :: (t ++ ['\''])) ++ List.replicate b ' ') ps = some t := by
